@@ -94,14 +94,14 @@ Proof.
   { subst cs0. destruct w; simpl; [reflexivity|]. unfold py_repeat, py_len. rewrite Nat2Z.id. reflexivity. }
   cbv beta iota zeta.
   match goal with |- context [if py_is_none w then ?A else ?B] =>
-    replace (if py_is_none w then A else B) with (@None dstate, (0, (0, (@nil dstate, (DNone, (Some cs0, tt))))))
+    replace (if py_is_none w then A else B) with (@None dstate, (0, (0, (DNone, (@nil dstate, (Some cs0, tt))))))
       by (rewrite <- Hw; destruct (py_is_none w); reflexivity) end.
   cbv beta iota zeta.
   match goal with |- context [py_for_i ?b 0 sts _] => set (body1 := b) end.
   (* first loop = tally *)
   assert (L1 : forall sts pre cs nd nw S0 R0, length cs = length sts ->
-            py_for_i body1 (Z.of_nat (length pre)) sts (nd, (nw, (S0, (R0, (Some (pre ++ cs), tt))))) =
-            (None, (nd + fst (fst (tally sts cs)), (nw + snd (fst (tally sts cs)), (S0, (R0, (Some (pre ++ snd (tally sts cs)), tt))))))).
+            py_for_i body1 (Z.of_nat (length pre)) sts (nd, (nw, (R0, (S0, (Some (pre ++ cs), tt))))) =
+            (None, (nd + fst (fst (tally sts cs)), (nw + snd (fst (tally sts cs)), (R0, (S0, (Some (pre ++ snd (tally sts cs)), tt))))))).
   { induction sts0 as [|st t IH]; intros pre cs nd nw S0 R0 Hl.
     - destruct cs; [|discriminate]. simpl. rewrite !Z.add_0_r. reflexivity.
     - destruct cs as [|c cs]; [discriminate|]. injection Hl as Hl.
@@ -124,17 +124,17 @@ Proof.
   cbn [sensitivity wait_time].
   (* second loop = map expire *)
   assert (L2 : forall (b2 : Z -> Z -> _ -> option dstate * _) cs pre (nd nw : Z) (S0 : list dstate) (R0 : dstate),
-            (forall i count nd nw S0 R0 W, b2 i count (nd, (nw, (S0, (R0, (W, tt))))) =
-               (None, (nd, (nw, (S0, (R0, ((if wt <? count then Some (py_set (py_oget W) i 0) else W), tt))))))) ->
-            py_for_i b2 (Z.of_nat (length pre)) cs (nd, (nw, (S0, (R0, (Some (pre ++ cs), tt))))) =
-            (None, (nd, (nw, (S0, (R0, (Some (pre ++ map (expire {| sensitivity := s; wait_time := wt |}) cs), tt))))))).
+            (forall i count nd nw S0 R0 W, b2 i count (nd, (nw, (R0, (S0, (W, tt))))) =
+               (None, (nd, (nw, (R0, (S0, ((if wt <? count then Some (py_set (py_oget W) i 0) else W), tt))))))) ->
+            py_for_i b2 (Z.of_nat (length pre)) cs (nd, (nw, (R0, (S0, (Some (pre ++ cs), tt))))) =
+            (None, (nd, (nw, (R0, (S0, (Some (pre ++ map (expire {| sensitivity := s; wait_time := wt |}) cs), tt))))))).
   { intros b2 cs. induction cs as [|c cs IH]; intros pre nd' nw' S0 R0 Hb; [reflexivity|].
     cbn [py_for_i map]. rewrite Hb. unfold expire at 1. cbn [wait_time py_oget].
     destruct (wt <? c).
     - rewrite py_set_app, (snoc_len pre 0), (app_snoc pre 0 cs), (IH (pre ++ [0]) _ _ _ _ Hb), <- app_snoc. reflexivity.
     - rewrite (snoc_len pre c), (app_snoc pre c cs), (IH (pre ++ [c]) _ _ _ _ Hb), <- app_snoc. reflexivity. }
   destruct (s <=? nd); [|destruct (s <=? nw + nd)]; cbv beta iota zeta; cbn [py_oget];
-    match goal with |- context [py_for_i ?b 0 r (_, (_, (_, (?R0, _))))] =>
+    match goal with |- context [py_for_i ?b 0 r (_, (_, (?R0, _)))] =>
       let E2 := fresh "E2" in
       assert (E2 := L2 b r [] nd nw sts R0); cbn [length app Z.of_nat] in E2; rewrite E2;
         [reflexivity | intros i count nd1 nw1 S1 R1 W; destruct (wt <? count); reflexivity]
